@@ -69,7 +69,8 @@ def ovIn (o td : TypeDef) : TypeDef := if o.inp ≠ [] then { td with inp := o.i
 def ovExt (o td : TypeDef) : TypeDef := if o.ext ≠ [] then { td with ext := o.ext } else td
 def ovDesc (o td : TypeDef) : TypeDef := if o.desc ≠ [] then { td with desc := o.desc } else td
 def ovRender (o td : TypeDef) : TypeDef := if o.render ≠ [] then { td with render := o.render } else td
-def ovRotate (o td : TypeDef) : TypeDef := if o.rotate ≠ [48] then { td with rotate := o.rotate } else td
+/-- `if HWcDef.TypeOverride.Rotate != 0` : false for both zeros (`-0 != 0` is false in Go) -/
+def ovRotate (o td : TypeDef) : TypeDef := if rotIsZero o.rotate then td else { td with rotate := o.rotate }
 def ovDisp (o td : TypeDef) : TypeDef := if o.disp.isSome then { td with disp := o.disp } else td
 def ovSub (o td : TypeDef) : TypeDef := if o.sub.length > 0 then { td with sub := o.sub } else td
 
@@ -318,7 +319,7 @@ def FV.isEmpty : FV → Bool
   | .int n => n == 0
   | .uint n => n == 0
   | .str s => s.isEmpty
-  | .f32 tok => tok == [48]
+  | .f32 tok => rotIsZero tok          -- `v.Float() == 0`: true for `-0` as well
   | .ptr v => v.isNone
   | .slice _ l => l.isEmpty
   | .map _ kvs => kvs.isEmpty
